@@ -27,6 +27,8 @@ structure TfProg where
   insertLoop : Fn
   count : Fn
   draw : Fn
+  /-- the variable `Draw` keeps the cursor column in -/
+  drawKey : String
 
 abbrev tfKeys : List String := ["tf.Value", "tf.cursor", "tf.n"]
 
@@ -130,8 +132,8 @@ def tfDrawCol (P : TfProg) (cl : List A → List (List A)) (drawW : List A → L
   let cx : Ctx A := { cl := cl, isAlnum := fun _ => false, call := fun _ _ _ => none, drawW := drawW }
   match runFn cx P.draw (envOfTF tf ++ [("tf.Style", .opaque), ("p0.Max.Width", .num w), ("p0.Max.Height", .num h)]) [.opaque] with
   | some (env, _) =>
-    some (match env.find? (fun p => p.1.endsWith ".Cursor.Col") with
-          | some (_, .num c) => some c
+    some (match getV env P.drawKey with
+          | .num c => some c
           | _ => none)
   | none => none
 
